@@ -349,6 +349,7 @@ func checkC12(c *Ctx) {
 func checkC15(c *Ctx) {
 	p := c.P
 	checkC15PKPlaceholder(c)
+	checkC15LimitMerge(c)
 	// First/Take/Last arm the not-found error on the statement; every derivation of that statement (a scope that opens a
 	// session, WithContext) must carry the flag (same rule as C06.clone, restricted to the flag)
 	checkC06Clone(c, c.Rule("C15.clone-flag", "Statement.clone carries RaiseErrorOnNotFound (a scope deriving a session keeps the armed not-found error)", 1), map[string]bool{"RaiseErrorOnNotFound": true})
@@ -819,6 +820,7 @@ func checkC20(c *Ctx) {
 	checkC20DDLTable(c)
 	checkC20AddExec(c)
 	checkC20FKFlag(c)
+	checkC20ColumnPassthrough(c)
 
 	// ---- C20.guarded-add ----
 	rg := c.Rule("C20.guarded-add", "every additive DDL call in AutoMigrate is conditional on absence (and MigrateColumn on presence)", 6)
